@@ -13,9 +13,17 @@ fireEvent() if nothing is outstanding); removed triggers never run; every remain
 exactly once per firing; a raising trigger does not prevent the others (its logged failure is
 whitelisted); removing a registered, not-yet-run trigger succeeds, removing it twice raises
 ValueError.
-False-alarm guards: triggers get unique id arguments (identical (callable, args) registrations
-would be indistinguishable); removal of an *already run* trigger is never generated (BEFORE state:
-only a deprecation warning; otherwise unspecified); triggers are not added while an event is firing
+Odd removals are generated too, from inside running during/after triggers: the trigger's own handle,
+the handle of an already-run (or already-removed) trigger, and handles of duplicate registrations
+(same callable and argument registered twice in one phase).  What such a removeTrigger() call itself
+does (raise or succeed) is a don't-care; every other registered, not-removed trigger must still run
+exactly once, in order.
+False-alarm guards: identical (callable, args) registrations are indistinguishable, so the model
+keys entries by their argument: a run consumes the first registered copy, a removal through any
+handle of the key must remove the single registered copy if there is exactly one, and is not issued
+while two copies are registered (which one goes would change the survivor's position); in the
+*before* phase removal of an already-run trigger is never generated (BEFORE state: only a
+deprecation warning); triggers are not added while an event is firing
 and fireEvent() is not re-entered (unspecified); Deferreds returned by during/after triggers are
 ignored by the implementation and by the oracle.
 """
@@ -27,7 +35,7 @@ LEVEL = "exploration"
 ENGINE = "core"
 TECHNIQUE = "runtime monitoring: three-FIFO reference model of trigger phases with Deferred gating, exact order comparison"
 RULE = ("random cases: 1-20 triggers (phase, behaviour: return / raise / Deferred / already-fired Deferred, removals it performs "
-        "when it runs), removals before firing and while before-Deferreds are outstanding, Deferreds fired in random order with "
+        "when it runs, also of its own / already-run handles in the during and after phases), duplicate registrations, removals before firing and while before-Deferreds are outstanding, Deferreds fired in random order with "
         "success or failure, optionally a second firing round with new triggers; plus every permutation x failure mask of 1-4 "
         "Deferred-returning before-triggers.  Each case on _ThreePhaseEvent and through ReactorBase.  Distinct = (api, case); "
         "non-trivial = >= 3 triggers ran in >= 2 phases, or a Deferred gated the during phase.")
@@ -35,7 +43,9 @@ ASSUMPTIONS = ["trusted base: the three-list model in this module; Deferred/Defe
 SHARDS = {"quick": 4, "thorough": 16}
 FLOORS = {"trigger_runs": 20000, "order_checks": 20000, "gated_firings": 1000, "deferreds_fired_failed": 200, "raising_triggers": 1000,
           "removed_never_ran": 1000, "removals_inside_triggers": 300, "removals_while_gated": 200, "double_removals_refused": 200,
-          "completions_checked": 3000, "second_rounds": 500, "permutation_cases": 400, "api_reactor": 1000, "api_event": 1000}
+          "completions_checked": 3000, "second_rounds": 500, "permutation_cases": 400, "api_reactor": 1000, "api_event": 1000,
+          "odd_removals_of_already_run_trigger": 1000, "odd_removals_of_own_handle": 300, "duplicate_registrations": 1000,
+          "duplicate_copy_removed_via_other_handle": 15}
 READY = True
 PHASES = ("before", "during", "after")
 
@@ -45,7 +55,7 @@ class Boom(Exception):
 
 
 def gen_case(rng):
-    def trig(i):
+    def trig():
         phase = rng.choice(["before", "before", "during", "after"])
         r = rng.random()
         if phase == "before":
@@ -53,11 +63,36 @@ def gen_case(rng):
         else:
             kind = "raise" if r < 0.2 else "defer" if r < 0.28 else "ret"
         rm = [rng.randrange(24) for _ in range(rng.choice([0, 0, 0, 0, 0, 0, 0, 1, 1, 2]))]
-        return {"id": i, "phase": phase, "kind": kind, "ok": rng.random() < 0.7, "rm": rm}
+        odd = []
+        if phase != "before" and rng.random() < 0.2:
+            # removals of handles that are no longer registered, issued while the during/after phase runs
+            for _ in range(rng.choice([1, 1, 2])):
+                odd.append(rng.choice([["self"], ["ran", rng.randrange(24)], ["ran", rng.randrange(24)], ["any", rng.randrange(32)],
+                                       ["dup", rng.randrange(8)]]))
+        return {"phase": phase, "kind": kind, "ok": rng.random() < 0.7, "rm": rm, "odd": odd}
 
-    n1 = rng.randrange(1, 21)
-    n2 = rng.randrange(1, 8) if rng.random() < 0.5 else 0
-    return {"triggers": [trig(i) for i in range(n1 + n2)], "round1": n1,
+    def segment(n):
+        specs = [trig() for _ in range(n)]
+        if rng.random() < 0.4:
+            # duplicate registrations: same callable and argument registered twice in one phase
+            for _ in range(rng.choice([1, 1, 2])):
+                cands = [t for t in specs if t["phase"] != "before" and "dup_of" not in t]
+                if not cands:
+                    break
+                o = rng.choice(cands)
+                o.update(kind="ret", rm=[], odd=[])
+                pos = rng.randrange(specs.index(o) + 1, len(specs) + 1)
+                specs.insert(pos, {"phase": o["phase"], "kind": "ret", "ok": True, "rm": [], "odd": [], "dup_of": o})
+        return specs
+
+    s1 = segment(rng.randrange(1, 21))
+    s2 = segment(rng.randrange(1, 8)) if rng.random() < 0.5 else []
+    specs = s1 + s2
+    for i, t in enumerate(specs):
+        t["id"] = i
+    for t in specs:
+        t["key"] = t.pop("dup_of")["id"] if "dup_of" in t else t["id"]
+    return {"triggers": specs, "round1": len(s1),
             "pre_removals": [rng.randrange(24) for _ in range(rng.choice([0, 0, 1, 2, 4]))],
             "double_removals": rng.random() < 0.3,
             "decisions": [rng.randrange(1000) for _ in range(60)]}
@@ -87,14 +122,14 @@ class Monitor:
         self.stats = {}
         self.present = {p: [] for p in PHASES}  # model: registered, not removed, not yet run -- registration order
         self.handles = {}
-        self.removed = set()
         self.ran = []  # [(id, phase)] of the current firing
-        self.ran_ever = set()
         self.outstanding = []  # [(id, Deferred, ok)] returned by before-triggers, unfired
         self.firing = False  # between fireEvent() and the completion of the after phase
         self.in_fire_call = False
         self.dec = list(case["decisions"])
         self.spec = {t["id"]: t for t in case["triggers"]}
+        self.key_of = {t["id"]: t.get("key", t["id"]) for t in case["triggers"]}  # duplicates share their original's key
+        self.status = {}  # entry id -> "present" | "removed" | "ran"
         if api == "event":
             self.ev = base._ThreePhaseEvent()
             self.add = lambda phase, f, *a: self.ev.addTrigger(phase, f, *a)
@@ -128,47 +163,69 @@ class Monitor:
         w.update(extra)
         self.ctx.violation(key, what, w)
 
-    # ---- the monitored trigger
-    def trigger(self, tid):
+    # ---- the monitored trigger (called with the *key*: identical registrations are indistinguishable)
+    def trigger(self, key):
         from twisted.internet import defer
 
-        t = self.spec[tid]
-        phase = t["phase"]
-        self.events.append(("run", tid, phase))
+        phase = self.spec[key]["phase"]
+        # identical entries are interchangeable and the lists are FIFO: a run consumes the first registered copy
+        eid = next((e for e in self.present[phase] if self.key_of[e] == key), None)
+        self.events.append(("run", key if eid is None else eid, phase))
         self.stat("trigger_runs")
         if not self.bad:
-            self.check_run(tid, phase)
-        if tid in self.present[phase]:
-            self.present[phase].remove(tid)
-        self.ran.append((tid, phase))
-        self.ran_ever.add(tid)
+            self.check_run(eid, key, phase)
+        if eid is None:
+            return None
+        t = self.spec[eid]
+        self.present[phase].remove(eid)
+        self.status[eid] = "ran"
+        self.ran.append((eid, phase))
         for j in t["rm"]:
             if self.bad:
                 break
             tgt = self.pick_present(j)
             if tgt is not None:
                 self.stat("removals_inside_triggers")
-                self.do_remove(tgt, "inside-%d" % tid)
+                self.do_remove(tgt, "inside-%d" % eid)
+        for o in t.get("odd", ()):
+            if self.bad:
+                break
+            if o[0] == "self":
+                tgt = eid
+            elif o[0] == "ran":
+                pool = [e for e, p in self.ran if p == phase] or [e for e, _ in self.ran]
+                tgt = pool[o[1] % len(pool)]
+            elif o[0] == "dup":  # the handle of a still-registered duplicate of some other registration
+                pool = [e for e in self.present["during"] + self.present["after"] if self.key_of[e] != e]
+                if not pool:
+                    continue
+                tgt = pool[o[1] % len(pool)]
+            else:
+                tgt = sorted(self.handles)[o[1] % len(self.handles)]
+            self.do_remove(tgt, "odd-%s-in-%d" % (o[0], eid))
         if t["kind"] == "raise":
             self.stat("raising_triggers")
-            raise Boom(tid)
+            raise Boom(eid)
         if t["kind"] == "defer":
             d = defer.Deferred()
             if phase == "before":
-                self.outstanding.append((tid, d, t["ok"]))
+                self.outstanding.append((eid, d, t["ok"]))
             return d
         if t["kind"] == "dnow":
             self.stat("already_fired_deferreds")
-            return defer.succeed(tid)
-        return tid
+            return defer.succeed(eid)
+        return eid
 
-    def check_run(self, tid, phase):
-        if tid in self.removed:
-            return self.fail("removed-trigger-ran", "trigger %d (%s) ran although it was removed" % (tid, phase), trigger=tid)
+    def check_run(self, eid, key, phase):
+        if eid is None:
+            copies = [e for e in self.status if self.key_of[e] == key]
+            if any(self.status[e] == "removed" for e in copies):
+                return self.fail("removed-trigger-ran", "trigger %d (%s) ran although every registered copy of it was removed or has "
+                                 "already run (copies: %s)" % (key, phase, {e: self.status[e] for e in copies}), trigger=key)
+            return self.fail("trigger-ran-twice", "trigger %d (%s) ran again" % (key, phase), trigger=key)
+        tid = eid
         if not self.firing:
             return self.fail("trigger-ran-without-firing", "trigger %d ran outside a firing of the event" % tid, trigger=tid)
-        if tid not in self.present[phase]:
-            return self.fail("trigger-ran-twice", "trigger %d (%s) ran again" % (tid, phase), trigger=tid)
         if phase == "before":
             if not self.in_fire_call:
                 return self.fail("before-trigger-outside-fireevent", "before-trigger %d ran outside fireEvent()" % tid, trigger=tid)
@@ -188,7 +245,7 @@ class Monitor:
                 return self.fail("phase-order", "after-trigger %d ran while during-triggers %s have not run"
                                  % (tid, self.present["during"]), trigger=tid)
         if self.present[phase][0] != tid:
-            return self.fail("registration-order", "%s-trigger %d ran before %d which was registered earlier"
+            return self.fail("registration-order", "%s-trigger %d ran before %d which was registered earlier and is still registered"
                              % (phase, tid, self.present[phase][0]), trigger=tid)
         self.stat("order_checks")
 
@@ -199,34 +256,51 @@ class Monitor:
             return None
         return allp[j % len(allp)]
 
-    def do_add(self, tid):
-        t = self.spec[tid]
-        self.handles[tid] = self.add(t["phase"], self.trigger, tid)
-        self.present[t["phase"]].append(tid)
-        self.events.append(("add", tid, t["phase"]))
+    def do_add(self, eid):
+        t = self.spec[eid]
+        self.handles[eid] = self.add(t["phase"], self.trigger, self.key_of[eid])
+        self.present[t["phase"]].append(eid)
+        self.status[eid] = "present"
+        self.events.append(("add", eid, t["phase"], self.key_of[eid]))
+        if self.key_of[eid] != eid:
+            self.stat("duplicate_registrations")
 
-    def do_remove(self, tid, where):
-        phase = self.spec[tid]["phase"]
-        expect_ok = tid in self.present[phase]
+    def do_remove(self, eid, where):
+        """removeTrigger(handle of entry eid).  What the handle designates is its (callable, args) key:
+        exactly one registered copy -> it must be removed without exception; none (already run / already
+        removed) -> the outcome of the call is a don't-care (except the documented ValueError for a
+        repeated removal before firing); two or more copies -> ambiguous which one goes, not issued."""
+        phase, key = self.spec[eid]["phase"], self.key_of[eid]
+        copies = [e for e in self.present[phase] if self.key_of[e] == key]
+        if len(copies) >= 2:
+            return self.stat("ambiguous_duplicate_removals_not_issued")
         got = None
         try:
             with warnings.catch_warnings():
                 warnings.simplefilter("ignore")
-                self.remove(self.handles[tid])
+                self.remove(self.handles[eid])
         except Exception as e:  # noqa: BLE001
             got = type(e).__name__
-        self.events.append(("remove", tid, where, got))
-        if expect_ok:
+        self.events.append(("remove", eid, where, got))
+        if copies:
+            tgt = copies[0]
             if got is not None:
-                return self.fail("remove-raised", "removing registered trigger %d raised %s" % (tid, got), trigger=tid)
-            self.present[phase].remove(tid)
-            self.removed.add(tid)
+                return self.fail("remove-raised", "removing registered trigger %d raised %s" % (tgt, got), trigger=tgt)
+            self.present[phase].remove(tgt)
+            self.status[tgt] = "removed"
             self.stat("removals")
-        elif got != "ValueError":
-            return self.fail("double-remove-not-refused", "removing trigger %d a second time raised %s, expected ValueError" % (tid, got),
-                             trigger=tid)
-        else:
+            if self.status[eid] == "ran" or tgt != eid:
+                self.stat("duplicate_copy_removed_via_other_handle")
+        elif where == "top-again":
+            if got != "ValueError":
+                return self.fail("double-remove-not-refused", "removing trigger %d a second time raised %s, expected ValueError"
+                                 % (eid, got), trigger=eid)
             self.stat("double_removals_refused")
+        else:
+            self.stat("odd_removals_of_%s_trigger" % ("already_run" if self.status[eid] == "ran" else "already_removed"))
+            if where.startswith("odd-self"):
+                self.stat("odd_removals_of_own_handle")
+            self.stat("odd_removal_outcome_" + str(got))
 
     def do_fire_event(self):
         self.ran = []
@@ -278,12 +352,8 @@ class Monitor:
                 self.do_add(t["id"])
             self.round([self.decide(24)], None)
         if not self.bad:
-            for tid in self.removed:
-                if tid in self.ran_ever:
-                    self.fail("removed-trigger-ran", "trigger %d ran although removed" % tid)
-                    break
-            else:
-                self.stat("removed_never_ran", len(self.removed))
+            # (a run that finds no registered copy is flagged when it happens, so these never ran)
+            self.stat("removed_never_ran", sum(1 for v in self.status.values() if v == "removed"))
         return self
 
     def round(self, pre_removals, fire_order):
